@@ -225,6 +225,12 @@ class HMat(AbsValue):
     def abs_getitem(self, I, idx):
         if isinstance(idx, int):
             return self.rows[self._row_index(I, idx)]
+        from pyvc.ext import NArr as _NArr
+
+        if isinstance(idx, _NArr) and idx.ndim == 1 and all(isinstance(x, int) and not isinstance(x, bool) for x in idx.data):
+            idx = PList(list(idx.data))  # integer index array: rows picked in that order
+        if isinstance(idx, PList) and all(isinstance(x, int) and not isinstance(x, bool) for x in idx.items):
+            return HMat([self.rows[self._row_index(I, i)] for i in idx.items], self.dim)
         if isinstance(idx, tuple) and len(idx) == 2 and isinstance(idx[1], slice) and idx[1] == slice(None, None, None):
             r = idx[0]
             if isinstance(r, int):
@@ -266,6 +272,12 @@ def h_concatenate(I, a, k):
     for p in parts:
         rows.extend(p.rows)
     return HMat(rows, d)
+
+
+def _must(r, f):
+    if r is None:
+        raise Unsupported("numpy function outside the modelled subset (%s on these arguments)" % f.__name__)
+    return r
 
 
 def install_numpy_h(I):
@@ -318,6 +330,56 @@ def install_numpy_h_on(ext):
             return a[0].abs_copy(I2)
         return None
 
+    def h_unique(I2, a, k):
+        """np.unique(m, axis=0[, return_index=True]) of an abstract matrix: which rows are equal is an unknown of the path
+        (decided row by row: equal to an earlier distinct row, or new); the lexicographic order of the distinct rows is unknown
+        too (every order is a path).  Rows decided equal are the same functional: their difference is recorded as a zero row,
+        a fact at every point of the path (harness)."""
+        if not a or not isinstance(a[0], HMat):
+            return None
+        m = a[0]
+        axis = k.get("axis", a[1] if len(a) > 1 else None)
+        extra = set(k) - {"axis", "return_index"}
+        if axis != 0 or extra:
+            raise Unsupported("np.unique on an abstract matrix with axis=%r %s" % (axis, sorted(extra)))
+        classes = []  # (representative row, first index)
+        for j, r in enumerate(m.rows):
+            same = [c for c, (rep, _) in enumerate(classes) if r.same_functional(rep)]
+            if same:
+                continue
+            ch = I2.ctx.choose(len(classes) + 1, "unique.row%d_equals" % j) if classes else 0
+            if ch < len(classes):
+                zr = getattr(I2.ctx, "zero_rows", None)
+                if zr is None:
+                    zr = I2.ctx.zero_rows = []
+                zr.append(LinRow(r.terms + classes[ch][0].scaled(I2, -1).terms, m.dim))
+            else:
+                classes.append((r, j))
+        import itertools
+
+        perms = list(itertools.permutations(range(len(classes))))
+        order = perms[I2.ctx.choose(len(perms), "unique.sorted_order")] if len(perms) > 1 else (perms[0] if perms else ())
+        um = HMat([classes[c][0] for c in order], m.dim)
+        if k.get("return_index"):
+            from pyvc.ext import NArr as _NArr
+
+            return (um, _NArr([classes[c][1] for c in order], (len(order),)))
+        return um
+
+    def h_sort(I2, a, k):
+        from pyvc.ext import NArr as _NArr
+
+        v = a[0] if a else None
+        if isinstance(v, _NArr) and v.ndim == 1 and all(isinstance(x, int) and not isinstance(x, bool) for x in v.data) and not k:
+            return _NArr(sorted(v.data), v.shape)
+        raise Unsupported("np.sort of %r" % (v,))
+
+    for nm, fn in (("unique", h_unique), ("sort", h_sort)):
+        if nm in base:
+            wrap(nm, fn)
+        else:
+            np.attrs[nm] = NativeFn("np." + nm, (lambda f: (lambda I2, a, k: _must(f(I2, a, k), f)))(fn))
+
     wrap("concatenate", h_concatenate)
     wrap("delete", h_delete)
     wrap("copy", h_copy)
@@ -333,7 +395,12 @@ class AbstractSpace:
         self.ctx = ctx
 
     def new_point(self, prefix="q"):
-        return self.ctx.fresh(PtS, prefix)
+        p = self.ctx.fresh(PtS, prefix)
+        pts = getattr(self.ctx, "h_points", None)
+        if pts is None:
+            pts = self.ctx.h_points = []
+        pts.append(p)
+        return p
 
     def ev(self, row, p):
         if isinstance(row, LinRow):
